@@ -1,7 +1,8 @@
 (* Property C15: scope-exit actions (defer blocks, <close> variables) run exactly once, innermost first,
    on every exit path.  Only the property theorems, each closed by [exact] of a lemma of Proofs.v. *)
 From Coq Require Import List.
-From C15 Require Import Gen Model Proofs Discipline NoFuel.
+From C15 Require Import Gen Model Proofs Discipline NoFuel CloseIndex.
+From Coq Require Import Sorted Permutation.
 Import ListNotations.
 
 (* (T) the facts scraped from astdefs.lua / cgenerator.lua / scope.lua are those the model compiler mirrors *)
@@ -63,3 +64,11 @@ Print Assumptions C15_ref_never_out_of_fuel.
 Theorem C15_tgt_never_out_of_fuel : forall p x, accepted p = true -> fst (tgt_sem (compile p) x) <> Fuel.
 Proof. exact tgt_never_out_of_fuel. Qed.
 Print Assumptions C15_tgt_never_out_of_fuel.
+
+(* visit_close's position bookkeeping (statindex + 1 + number of already injected defers of EARLIER variables):
+   whatever the order in which the variables' types get resolved, the injected defers stand in declaration order
+   (so [close_order] may ignore the `late` flag) *)
+Theorem C15_visit_close_any_order : forall order, NoDup order ->
+  Sorted lt (visit_close_all order) /\ Permutation (visit_close_all order) order.
+Proof. exact visit_close_any_order. Qed.
+Print Assumptions C15_visit_close_any_order.
